@@ -483,3 +483,143 @@ func (u UpAnswer) Build(req *dns.Msg) (resp *dns.Msg) {
 
 	return resp
 }
+
+// Flags are the switches of a profile's or a filtering group's configuration.
+type Flags struct {
+	CustomOn bool
+
+	ParentalOn bool
+	AdultOn    bool
+	GenSSOn    bool
+	YTSSOn     bool
+	Services   []string
+
+	RuleListsOn bool
+	ListIDs     []string
+
+	SafeBrowsingOn bool
+	DangerousOn    bool
+	NewRegOn       bool
+}
+
+// DrawFlags draws the switches.  Most are on most of the time, so that the
+// slots stay populated; list and service identifiers are a drawn order of a
+// subset of the known ones plus, sometimes, an unknown one.
+func DrawFlags(t *rapid.T, label string) (f Flags) {
+	on := func(name string, pct int) bool { return rapid.IntRange(0, 99).Draw(t, label+name) < pct }
+	f.CustomOn = on("CustomOn", 85)
+	f.ParentalOn = on("ParentalOn", 85)
+	f.AdultOn = on("AdultOn", 80)
+	f.GenSSOn = on("GenSSOn", 80)
+	f.YTSSOn = on("YTSSOn", 80)
+	f.RuleListsOn = on("RuleListsOn", 85)
+	f.SafeBrowsingOn = on("SafeBrowsingOn", 85)
+	f.DangerousOn = on("DangerousOn", 80)
+	f.NewRegOn = on("NewRegOn", 80)
+
+	ids := rapid.Permutation(append([]string{"l9"}, SharedIDs...)).Draw(t, label+"ListOrder")
+	f.ListIDs = ids[:rapid.IntRange(0, len(ids)).Draw(t, label+"NLists")]
+	if rapid.IntRange(0, 2).Draw(t, label+"AllLists") == 0 {
+		f.ListIDs = ids
+	}
+
+	svcs := rapid.Permutation(append([]string{"s9"}, SvcIDs...)).Draw(t, label+"SvcOrder")
+	f.Services = svcs[:rapid.IntRange(0, len(svcs)).Draw(t, label+"NSvcs")]
+
+	return f
+}
+
+// Effective returns the configuration that is in effect under the switches f.
+// withCustom is false for a filtering group, which has no custom rules.
+func (w *World) Effective(f Flags, withCustom bool) (c *Config) {
+	c = &Config{}
+	if withCustom && f.CustomOn && w.Custom != nil && len(w.Custom.Rules) > 0 {
+		c.Custom = w.Custom
+	}
+
+	if f.RuleListsOn {
+		for _, id := range f.ListIDs {
+			for _, l := range w.Shared {
+				if l.ID == id {
+					c.Shared = append(c.Shared, l)
+				}
+			}
+		}
+	}
+
+	if f.ParentalOn {
+		if f.AdultOn {
+			c.Adult = w.Adult
+		}
+
+		if f.GenSSOn {
+			c.GenSS = w.GenSS
+		}
+
+		if f.YTSSOn {
+			c.YTSS = w.YTSS
+		}
+
+		for _, id := range f.Services {
+			for _, l := range w.Svc {
+				if l.SvcID == id {
+					c.Svc = append(c.Svc, l)
+				}
+			}
+		}
+	}
+
+	if f.SafeBrowsingOn {
+		if f.DangerousOn {
+			c.Dangerous = w.Dangerous
+		}
+
+		if f.NewRegOn {
+			c.NewReg = w.NewReg
+		}
+	}
+
+	return c
+}
+
+// AddRespRules adds, with a fair probability, rules aimed at upstream answers
+// (and sometimes an allow rule for the focus host, so that an allowed question
+// meets a blocked answer) to drawn rule sources of w.  Without it verdicts on
+// answers are rare, because most questions already have a verdict.
+func (w *World) AddRespRules(t *rapid.T, focus string) {
+	n := rapid.SampledFrom([]int{0, 0, 1, 1, 2}).Draw(t, "nRespRules")
+	if n == 0 {
+		return
+	}
+
+	pick := func(label string) *List {
+		var srcs []*List
+		if w.Custom != nil {
+			srcs = append(srcs, w.Custom)
+		}
+
+		srcs = append(srcs, w.Shared...)
+		if len(srcs) == 0 {
+			w.Custom = &List{ID: IDCustom}
+
+			return w.Custom
+		}
+
+		return srcs[rapid.IntRange(0, len(srcs)-1).Draw(t, label)]
+	}
+
+	for i := 0; i < n; i++ {
+		r := drawRespRule(t)
+		if rapid.Bool().Draw(t, "respForceBlock") {
+			r = Rule{Kind: KBlock, D: rapid.SampledFrom(respDomains()).Draw(t, "respForceD")}
+		}
+
+		l := pick("respWhere")
+		l.Rules = dedupe(append(l.Rules, r))
+	}
+
+	if rapid.IntRange(0, 2).Draw(t, "respAllowReq") == 0 {
+		l := pick("respAllowWhere")
+		l.Rules = dedupe(append(l.Rules, Rule{Kind: KAllow, D: focus}))
+	}
+}
